@@ -16,9 +16,12 @@ from vlib import unitsref as U
 R_SI = 8.314472          # J/(mol K): value documented in pgradd/Consts.py
 
 _PFX = ['Y', 'Z', 'E', 'P', 'T', 'G', 'M', 'k', 'h', 'da', 'd', 'c', 'm', 'u', 'n', 'p', 'f', 'a', 'z', 'y']
-ENERGY_UNITS = ['J/mol', 'kJ/mol', 'cal/mol', 'kcal/mol', 'eV/molecule', 'MJ/kmol', 'kcal/kmol', 'mJ/mmol'] + \
+ENERGY_UNITS = ['J/mol', 'kJ/mol', 'cal/mol', 'kcal/mol', 'eV/molecule', 'MJ/kmol', 'kcal/kmol', 'mJ/mmol',
+                # negative powers instead of '/', also on prefixed units
+                'kJ kmol^-1', 'J mmol^-1', 'kcal kmol^-1', 'J mol^-1'] * 4 + \
     ['%sJ/mol' % p for p in _PFX] + ['%sJ/molecule' % p for p in ('a', 'z', 'f', 'y')] + ['J/%smol' % p for p in ('k', 'm', 'u', 'da')]
-ENTROPY_UNITS = ['J/(mol K)', 'J/mol/K', 'cal/(mol*K)', 'kcal/(mol K)', 'kJ/(mol K)', 'eV/molecule/K', 'cal/mol/K'] + \
+ENTROPY_UNITS = ['J/(mol K)', 'J/mol/K', 'cal/(mol*K)', 'kcal/(mol K)', 'kJ/(mol K)', 'eV/molecule/K', 'cal/mol/K',
+                 'J mmol^-1 K^-1', 'kJ kmol^-1 K^-1', 'cal mol^-1 K^-1', 'J mol^-1 kK^-1'] * 4 + \
     ['%sJ/(mol K)' % p for p in _PFX] + ['%sJ/(molecule K)' % p for p in ('a', 'z', 'y')] + ['%scal/(mol K)' % p for p in ('k', 'm', 'u', 'h', 'd')]
 TEMP_UNITS = ['K', 'mK', 'kK', 'cK', 'dK', 'daK', 'hK']
 
@@ -29,7 +32,7 @@ def factor(unit):
     """SI magnitude of a unit string from the small fixed vocabulary above"""
     if unit not in _factor:
         import re
-        toks = re.findall(r'[A-Za-z]+|[()*/]', unit)
+        toks = re.findall(r'[A-Za-z]+|\^-?\d+|[()*/]', unit)
         pos = [0]
 
         def peek():
@@ -48,15 +51,21 @@ def factor(unit):
                 return v
             return U.lookup(t)
 
-        def ex():
+        def powered():
             v = base()
+            if peek() is not None and peek().startswith('^'):
+                v = v.pow(int(take()[1:]))
+            return v
+
+        def ex():
+            v = powered()
             while peek() is not None and peek() != ')':
                 if peek() in '*/':
                     op = take()
-                    w = base()
+                    w = powered()
                     v = v * w if op == '*' else v / w
                 else:
-                    v = v * base()
+                    v = v * powered()
             return v
         _factor[unit] = float(ex().v)
     return _factor[unit]
